@@ -24,7 +24,7 @@ fn base() -> (Store, u32, u64) {
     BASE.with(|b| {
         let mut b = b.borrow_mut();
         if b.is_none() {
-            let v = VolCfg { source: VolSource::Format, fat: 32, bps: 512, spc: 8, fats: 1, root_entries: 512, total_sectors: 16_777_216, extra_sectors: 0, ballast_keep: None, ballast_mode: 0, fsinfo_mode: 0, hint: None, status: 0, label: false, tail_taken: 0 };
+            let v = VolCfg { source: VolSource::Format, fat: 32, bps: 512, spc: 8, fats: 1, root_entries: 512, total_sectors: 16_777_216, extra_sectors: 0, ballast_keep: None, ballast_mode: 0, fsinfo_mode: 0, hint: None, status: 0, label: false, tail_taken: 0, dirty_medium: false };
             let store = crate::vol::format_store(&v).expect("harness: c02x volume");
             let st = Rc::new(RefCell::new(DiskState::new(store)));
             st.borrow_mut().log_mode = LogMode::Off;
